@@ -13,51 +13,75 @@ theorem lens_nonneg (l : List RawChunk) (h : ∀ c ∈ l, 1 ≤ c.len) : 0 ≤ (
     have := ih (fun c hc => h c (by simp [hc]))
     simp only [List.map_cons, List.sum_cons]; omega
 
-theorem nodeChunks_frames {α} (A : Arith α) (ue ex : Bool) (target : α) (fuel : Nat) (length : Int) (counter : α)
-    (cs : List RawChunk) (hf : length.toNat ≤ fuel) (h : nodeChunks A ue ex target fuel length counter = some cs) :
+theorem map_eq_ok {ε α β} (f : α → β) (x : Except ε α) (y : β) :
+    Except.map f x = .ok y ↔ ∃ a, x = .ok a ∧ f a = y := by
+  cases x <;> simp [Except.map]
+
+theorem map_eq_error {ε α β} (f : α → β) (x : Except ε α) (e : ε) :
+    Except.map f x = .error e ↔ x = .error e := by
+  cases x <;> simp [Except.map]
+
+theorem nodeSize_pos (ex : Bool) : 0 < nodeSize ex := by
+  cases ex <;> decide
+
+/-- an iteration list that was accepted: frames, split at 255, and the size limit — the node
+count behind the last pushed node is at most 256 -/
+theorem nodeChunks_frames {α} (A : Arith α) (ue ex : Bool) (target : α) (fuel size : Nat) (length : Int) (counter : α)
+    (cs : List RawChunk) (hf : length.toNat ≤ fuel) (h : nodeChunks A ue ex target fuel size length counter = .ok cs) :
     (cs.map (·.len)).sum = (length.toNat : Int) ∧ (∀ c ∈ cs, 1 ≤ c.len ∧ c.len ≤ 255) ∧
-      (∀ c ∈ cs.dropLast, c.len = 255) ∧ (0 < length → cs ≠ []) := by
-  induction fuel generalizing length counter cs with
+      (∀ c ∈ cs.dropLast, c.len = 255) ∧ (0 < length → cs ≠ []) ∧
+      (cs ≠ [] → size + nodeSize ex * cs.length ≤ nodeSize ex * Tables.mdsdrv_pitch_node_max) := by
+  induction fuel generalizing size length counter cs with
   | zero =>
-    simp only [nodeChunks, Option.some.injEq] at h
+    simp only [nodeChunks, Except.ok.injEq] at h
     subst h
-    refine ⟨by simp; omega, by simp, by simp, by omega⟩
+    refine ⟨by simp; omega, by simp, by simp, by omega, by simp⟩
   | succ fuel ih =>
     unfold nodeChunks at h
     by_cases hl : length ≤ 0
-    · simp only [hl, if_true, Option.some.injEq] at h
+    · simp only [hl, if_true, Except.ok.injEq] at h
       subst h
-      refine ⟨by simp; omega, by simp, by simp, by omega⟩
+      refine ⟨by simp; omega, by simp, by simp, by omega, by simp⟩
     · simp only [hl, if_false] at h
       split at h
       · cases h
-      · simp only [Option.map_eq_some_iff] at h
-        obtain ⟨cs', h1, rfl⟩ := h
-        have hlen : (1 : Int) ≤ (if length > 255 then 255 else length) ∧ (if length > 255 then 255 else length) ≤ 255 := by
-          split <;> omega
-        obtain ⟨i1, i2, i3, i4⟩ := ih _ _ cs' (by split <;> omega) h1
-        refine ⟨?_, ?_, ?_, by simp⟩
-        · simp only [List.map_cons, List.sum_cons, i1]
-          split <;> omega
-        · intro c hc
-          rcases List.mem_cons.mp hc with rfl | hc
-          · exact hlen
-          · exact i2 c hc
-        · intro c hc
-          cases cs' with
-          | nil => simp at hc
-          | cons x r =>
-            simp only [List.dropLast_cons_cons, List.mem_cons] at hc
-            rcases hc with rfl | hc
-            · by_cases hb : length > 255
-              · simp [hb]
-              · exfalso
-                simp only [hb, if_false] at i1
-                have h1 := i2 x (by simp)
-                have h2 := lens_nonneg r (fun c hc => (i2 c (by simp [hc])).1)
-                simp only [List.map_cons, List.sum_cons] at i1
-                omega
-            · exact i3 c hc
+      · split at h
+        · cases h
+        · rename_i hsz
+          simp only [map_eq_ok] at h
+          obtain ⟨cs', h1, rfl⟩ := h
+          have hlen : (1 : Int) ≤ (if length > 255 then 255 else length) ∧ (if length > 255 then 255 else length) ≤ 255 := by
+            split <;> omega
+          obtain ⟨i1, i2, i3, i4, i5⟩ := ih _ _ _ cs' (by split <;> omega) h1
+          refine ⟨?_, ?_, ?_, by simp, ?_⟩
+          · simp only [List.map_cons, List.sum_cons, i1]
+            split <;> omega
+          · intro c hc
+            rcases List.mem_cons.mp hc with rfl | hc
+            · exact hlen
+            · exact i2 c hc
+          · intro c hc
+            cases cs' with
+            | nil => simp at hc
+            | cons x r =>
+              simp only [List.dropLast_cons_cons, List.mem_cons] at hc
+              rcases hc with rfl | hc
+              · by_cases hb : length > 255
+                · simp [hb]
+                · exfalso
+                  simp only [hb, if_false] at i1
+                  have h1 := i2 x (by simp)
+                  have h2 := lens_nonneg r (fun c hc => (i2 c (by simp [hc])).1)
+                  simp only [List.map_cons, List.sum_cons] at i1
+                  omega
+              · exact i3 c hc
+          · intro _
+            cases cs' with
+            | nil => simp only [List.length_cons, List.length_nil]; omega
+            | cons x r =>
+              have := i5 (by simp)
+              simp only [List.length_cons, Nat.mul_add, Nat.mul_one] at this ⊢
+              omega
 
 
 /-! ## byte level: what the independent reader sees -/
@@ -230,7 +254,7 @@ theorem ext6_append (k : Nat) (a b : List RawChunk) : ext6 k (a ++ b) = ext6 k a
 
 /-- extended form, envelope with a loop mark at node `lp`: the last node continues there -/
 theorem ext_loop (cs : List RawChunk) (c : RawChunk) (lp : Nat) (hlp : lp < 256) (h : ∀ x ∈ cs ++ [c], ER x)
-    (hn : cs.length + 1 < 256) :
+    (hn : cs.length < 256) :
     runPitchEnv true (pitchFinishExt (ext6 0 (cs ++ [c])) lp) =
       some { chunks := extChunks 0 cs ++ [toChunk c (some lp)], loopTo := some lp } := by
   have e0 : ((lp : Int) == -1) = false := by simp
@@ -248,7 +272,7 @@ theorem ext_loop (cs : List RawChunk) (c : RawChunk) (lp : Nat) (hlp : lp < 256)
   simp [toChunk]
 
 /-- extended form, envelope without loop: the last node points at itself and holds for ever -/
-theorem ext_noloop (cs : List RawChunk) (c : RawChunk) (h : ∀ x ∈ cs ++ [c], ER x) (hn : cs.length + 1 < 256) :
+theorem ext_noloop (cs : List RawChunk) (c : RawChunk) (h : ∀ x ∈ cs ++ [c], ER x) (hn : cs.length < 256) :
     runPitchEnv true (pitchFinishExt (ext6 0 (cs ++ [c])) (-1)) =
       some { chunks := extChunks 0 cs ++ [{ toChunk c (some cs.length) with frames := none }], loopTo := none } := by
   obtain ⟨a1, a2, a3, a4, _, _⟩ := h c (by simp)
@@ -260,10 +284,10 @@ theorem ext_noloop (cs : List RawChunk) (c : RawChunk) (h : ∀ x ∈ cs ++ [c],
     have hn1 : nth (ext6 0 cs ++ (bytes5 c ++ [u8 ((cs.length + 1 : Nat) : Int)])) ((ext6 0 cs).length + 6 - 1)
         = u8 ((cs.length + 1 : Nat) : Int) := by
       simp [nth, bytes5, List.getD_eq_getElem?_getD, List.getElem?_append_right]
-    rw [hl, hn1, u8_small (cs.length + 1) (by omega)]
-    have : u8 (((cs.length + 1 : Nat) : Int) - 1) = cs.length := by
-      have := u8_small cs.length (by omega)
-      simpa using this
+    rw [hl, hn1]
+    -- with 256 nodes the next-index byte of the last node has wrapped to 0; `- 1` brings it back to 255
+    have : u8 ((u8 ((cs.length + 1 : Nat) : Int) : Int) - 1) = cs.length := by
+      unfold u8; omega
     rw [this]
     have s1 : (ext6 0 cs).length + 6 - 2 = (ext6 0 cs).length + 4 := by omega
     have s2 : (ext6 0 cs).length + 6 - 1 = (ext6 0 cs).length + 5 := by omega
@@ -293,73 +317,89 @@ def isMark {α} : PItem α → Bool
   | .node .. => false
   | _ => true
 
-/-- the iterations one parsed item contributes -/
-def itemChunks {α} (A : Arith α) (ue ex : Bool) : PItem α → Option (List RawChunk)
-  | .loop => some []
-  | .node i t e => nodeOf A ue ex i t e
+/-- the iterations one parsed item contributes to an envelope that already holds `n` nodes -/
+def itemChunks {α} (A : Arith α) (ue ex : Bool) (n : Nat) : PItem α → Except PErr (List RawChunk)
+  | .loop => .ok []
+  | .node i t e => nodeOf A ue ex (nodeSize ex * n) i t e
   | .vib b d r =>
-    (nodeOf A ue ex (A.fmt6 b) (A.fmt6 d) (some r)).bind fun c1 =>
-    (nodeOf A ue ex (A.fmt6 d) (A.fmt6 (A.neg d)) (some (r * 2))).bind fun c2 =>
-    (nodeOf A ue ex (A.fmt6 (A.neg d)) (A.fmt6 b) (some r)).map fun c3 => c1 ++ c2 ++ c3
+    (nodeOf A ue ex (nodeSize ex * n) (A.fmt6 b) (A.fmt6 d) (some r)).bind fun c1 =>
+    (nodeOf A ue ex (nodeSize ex * (n + c1.length)) (A.fmt6 d) (A.fmt6 (A.neg d)) (some (i32 (r * 2)))).bind fun c2 =>
+    (nodeOf A ue ex (nodeSize ex * (n + c1.length + c2.length)) (A.fmt6 (A.neg d)) (A.fmt6 b) (some r)).map fun c3 =>
+      c1 ++ c2 ++ c3
 
 /-- the whole envelope as iterations + loop index -/
-def envChunks {α} (A : Arith α) (ue ex : Bool) : List (PItem α) → List RawChunk → Int → Option (List RawChunk × Int)
-  | [], cs, lp => some (cs, lp)
+def envChunks {α} (A : Arith α) (ue ex : Bool) : List (PItem α) → List RawChunk → Int → Except PErr (List RawChunk × Int)
+  | [], cs, lp => .ok (cs, lp)
   | it :: r, cs, lp =>
-    (itemChunks A ue ex it).bind fun c =>
+    (itemChunks A ue ex cs.length it).bind fun c =>
       envChunks A ue ex r (cs ++ c) (if isMark it then (cs.length : Int) else lp)
 
 theorem div_sz (ex : Bool) (n : Nat) : (if ex then 6 else 4) * n / (if ex then 6 else 4) = n := by
   cases ex <;> simp
 
+theorem nodeSize_eq (ex : Bool) : nodeSize ex = if ex then 6 else 4 := by
+  cases ex <;> rfl
+
+theorem render_size (ex : Bool) (cs : List RawChunk) : (render ex cs).length = nodeSize ex * cs.length := by
+  rw [render_length, nodeSize_eq]
+
+theorem div_sz' (ex : Bool) (n : Nat) : nodeSize ex * n / (if ex then 6 else 4) = n := by
+  rw [nodeSize_eq, div_sz]
+
+theorem pitchNodeVals_render {α} (A : Arith α) (ue ex : Bool) (i t : α) (e : Option Int) (cs : List RawChunk) :
+    pitchNodeVals A ue ex i t e (render ex cs) =
+      (nodeOf A ue ex (nodeSize ex * cs.length) i t e).map fun c => render ex (cs ++ c) := by
+  simp only [pitchNodeVals, render_size]
+  cases nodeOf A ue ex (nodeSize ex * cs.length) i t e <;> simp [Except.map, render_append]
+
 theorem pitchItem_chunks {α} (A : Arith α) (ue ex : Bool) (cs : List RawChunk) (lp : Int) (it : PItem α) :
     pitchItem A ue ex (render ex cs, lp) it =
-      (itemChunks A ue ex it).map fun c => (render ex (cs ++ c), if isMark it then (cs.length : Int) else lp) := by
+      (itemChunks A ue ex cs.length it).map fun c => (render ex (cs ++ c), if isMark it then (cs.length : Int) else lp) := by
   cases it with
-  | loop => simp [pitchItem, itemChunks, isMark, render_length, div_sz]
+  | loop => simp [pitchItem, itemChunks, isMark, render_size, div_sz', Except.map]
   | node i t e =>
-    simp only [pitchItem, pitchNodeVals, itemChunks, isMark, Option.map_map]
-    cases nodeOf A ue ex i t e <;> simp [render_append]
+    simp only [pitchItem, pitchNodeVals_render, itemChunks, isMark]
+    cases nodeOf A ue ex (nodeSize ex * cs.length) i t e <;> simp [Except.map]
   | vib b d r =>
-    simp only [pitchItem, vibNodes, List.foldlM_cons, List.foldlM_nil, pitchNodeVals, itemChunks, isMark, render_length,
-      div_sz]
-    cases nodeOf A ue ex (A.fmt6 b) (A.fmt6 d) (some r) with
-    | none => simp
-    | some c1 =>
-      cases nodeOf A ue ex (A.fmt6 d) (A.fmt6 (A.neg d)) (some (r * 2)) with
-      | none => simp
-      | some c2 =>
-        cases nodeOf A ue ex (A.fmt6 (A.neg d)) (A.fmt6 b) (some r) with
-        | none => simp
-        | some c3 => simp [render, List.foldl_append]
+    simp only [pitchItem, vibNodes, List.foldlM_cons, List.foldlM_nil, itemChunks, isMark, render_size, div_sz',
+      pitchNodeVals_render]
+    cases h1 : nodeOf A ue ex (nodeSize ex * cs.length) (A.fmt6 b) (A.fmt6 d) (some r) with
+    | error e => simp [Except.map, bind, Except.bind]
+    | ok c1 =>
+      simp only [Except.map, bind, Except.bind, pitchNodeVals_render, List.length_append]
+      cases h2 : nodeOf A ue ex (nodeSize ex * (cs.length + c1.length)) (A.fmt6 d) (A.fmt6 (A.neg d)) (some (i32 (r * 2))) with
+      | error e => simp
+      | ok c2 =>
+        simp only [pitchNodeVals_render, List.length_append]
+        cases h3 : nodeOf A ue ex (nodeSize ex * (cs.length + c1.length + c2.length)) (A.fmt6 (A.neg d)) (A.fmt6 b) (some r) with
+        | error e => simp [pure, Except.pure, Except.map]
+        | ok c3 => simp [pure, Except.pure, Except.map, List.append_assoc]
 
 /-- the parsed items applied in order (what `pitchTokens` does when every token parses) -/
-def pitchItems {α} (A : Arith α) (ue ex : Bool) (items : List (PItem α)) (st : NBytes × Int) : Option (NBytes × Int) :=
+def pitchItems {α} (A : Arith α) (ue ex : Bool) (items : List (PItem α)) (st : NBytes × Int) : Except PErr (NBytes × Int) :=
   items.foldlM (pitchItem A ue ex) st
 
 theorem pitchItems_chunks {α} (A : Arith α) (ue ex : Bool) (items : List (PItem α)) (cs : List RawChunk) (lp : Int) :
     pitchItems A ue ex items (render ex cs, lp) =
       (envChunks A ue ex items cs lp).map fun r => (render ex r.1, r.2) := by
   induction items generalizing cs lp with
-  | nil => simp [pitchItems, envChunks]
+  | nil => simp [pitchItems, envChunks, Except.map, pure, Except.pure]
   | cons it r ih =>
     simp only [pitchItems, List.foldlM_cons, envChunks, pitchItem_chunks]
-    cases itemChunks A ue ex it with
-    | none => simp
-    | some c =>
-      simp only [Option.map_some, Option.bind_some]
+    cases itemChunks A ue ex cs.length it with
+    | error e => simp [Except.map, bind, Except.bind]
+    | ok c =>
+      simp only [Except.map, bind, Except.bind]
       exact ih _ _
 
+/-- when every token parses, the token loop is the item loop (same result, same exception) -/
 theorem pitchTokens_items {α} (A : Arith α) (ue ex : Bool) (toks : List String) (items : List (PItem α))
     (hp : toks.map (pitchParse A) = items.map some) (env : NBytes) (lp : Int) :
-    pitchTokens A ue ex toks env lp =
-      match pitchItems A ue ex items (env, lp) with
-      | none => .error .invalidArgument
-      | some r => .ok r := by
+    pitchTokens A ue ex toks env lp = pitchItems A ue ex items (env, lp) := by
   induction toks generalizing items env lp with
   | nil =>
     cases items with
-    | nil => simp [pitchTokens, pitchItems]
+    | nil => simp [pitchTokens, pitchItems, pure, Except.pure]
     | cons _ _ => simp at hp
   | cons tok r ih =>
     cases items with
@@ -368,10 +408,10 @@ theorem pitchTokens_items {α} (A : Arith α) (ue ex : Bool) (toks : List String
       simp only [List.map_cons, List.cons.injEq] at hp
       simp only [pitchTokens, hp.1, pitchItems, List.foldlM_cons]
       cases h : pitchItem A ue ex (env, lp) it with
-      | none => simp
-      | some st =>
+      | error e => simp [bind, Except.bind]
+      | ok st =>
         obtain ⟨env', lp'⟩ := st
-        simp only [Option.bind_some]
+        simp only [bind, Except.bind]
         exact ih ri hp.2 env' lp'
 
 /-! ## ranges of the iterations -/
@@ -387,43 +427,45 @@ theorem clamp8_range (d : Int) : -128 ≤ clamp8 d ∧ clamp8 d ≤ 127 := by
   · omega
   · split <;> omega
 
-theorem nodeChunks_range {α} (A : Arith α) (ue ex : Bool) (target : α) (fuel : Nat) (length : Int) (counter : α)
-    (cs : List RawChunk) (h : nodeChunks A ue ex target fuel length counter = some cs) :
+theorem nodeChunks_range {α} (A : Arith α) (ue ex : Bool) (target : α) (fuel size : Nat) (length : Int) (counter : α)
+    (cs : List RawChunk) (h : nodeChunks A ue ex target fuel size length counter = .ok cs) :
     ∀ c ∈ cs, -32768 ≤ c.start ∧ c.start ≤ 32767 ∧ -32768 ≤ c.delta ∧ c.delta ≤ 32767 ∧
       (ex = false → -128 ≤ c.delta ∧ c.delta ≤ 127) := by
-  induction fuel generalizing length counter cs with
+  induction fuel generalizing size length counter cs with
   | zero =>
-    simp only [nodeChunks, Option.some.injEq] at h
+    simp only [nodeChunks, Except.ok.injEq] at h
     subst h; simp
   | succ fuel ih =>
     unfold nodeChunks at h
     by_cases hl : length ≤ 0
-    · simp only [hl, if_true, Option.some.injEq] at h
+    · simp only [hl, if_true, Except.ok.injEq] at h
       subst h; simp
     · simp only [hl, if_false] at h
       split at h
       · cases h
       · rename_i hc
-        simp only [Option.map_eq_some_iff] at h
-        obtain ⟨cs', h1, rfl⟩ := h
-        intro c hc'
-        rcases List.mem_cons.mp hc' with rfl | hc'
-        · have hs := chunkStart_range A counter
-          have hd := i16_range (A.trunc (A.mul256 (A.divNat (A.sub target counter) length.toNat)))
-          have hk := clamp8_range (chunkDelta A target counter length)
-          simp only [chunkDelta] at hc hk ⊢
-          cases ex with
-          | true => simp; omega
-          | false =>
-            cases ue with
-            | false => simp; omega
-            | true =>
-              simp only [Bool.not_false, Bool.true_and, Bool.or_eq_true, decide_eq_true_eq, not_or] at hc
-              obtain ⟨h1, h2⟩ := hc
-              have h1' := mt decide_eq_true h1
-              have h2' := mt decide_eq_true h2
-              simp; omega
-        · exact ih _ _ cs' h1 c hc'
+        split at h
+        · cases h
+        · simp only [map_eq_ok] at h
+          obtain ⟨cs', h1, rfl⟩ := h
+          intro c hc'
+          rcases List.mem_cons.mp hc' with rfl | hc'
+          · have hs := chunkStart_range A counter
+            have hd := i16_range (A.trunc (A.mul256 (A.divNat (A.sub target counter) length.toNat)))
+            have hk := clamp8_range (chunkDelta A target counter length)
+            simp only [chunkDelta] at hc hk ⊢
+            cases ex with
+            | true => simp; omega
+            | false =>
+              cases ue with
+              | false => simp; omega
+              | true =>
+                simp only [Bool.not_false, Bool.true_and, Bool.or_eq_true, decide_eq_true_eq, not_or] at hc
+                obtain ⟨h1, h2⟩ := hc
+                have h1' := mt decide_eq_true h1
+                have h2' := mt decide_eq_true h2
+                simp; omega
+          · exact ih _ _ _ cs' h1 c hc'
 
 
 /-! ## envelope level -/
@@ -431,16 +473,17 @@ theorem nodeChunks_range {α} (A : Arith α) (ue ex : Bool) (target : α) (fuel 
 theorem pitchLength_pos {α} (A : Arith α) (i t : α) (e : Option Int) : 1 ≤ pitchLength A i t e ∨ pitchLength A i t e ≤ 0 := by
   omega
 
-theorem nodeOf_spec {α} (A : Arith α) (ue ex : Bool) (i t : α) (e : Option Int) (cs : List RawChunk)
-    (h : nodeOf A ue ex i t e = some cs) :
+theorem nodeOf_spec {α} (A : Arith α) (ue ex : Bool) (size : Nat) (i t : α) (e : Option Int) (cs : List RawChunk)
+    (h : nodeOf A ue ex size i t e = .ok cs) :
     (cs.map (·.len)).sum = ((pitchLength A i t e).toNat : Int) ∧ (∀ c ∈ cs, 1 ≤ c.len ∧ c.len ≤ 255) ∧
       (∀ c ∈ cs.dropLast, c.len = 255) ∧
       (∀ c ∈ cs, -32768 ≤ c.start ∧ c.start ≤ 32767 ∧ -32768 ≤ c.delta ∧ c.delta ≤ 32767 ∧
         (ex = false → -128 ≤ c.delta ∧ c.delta ≤ 127)) ∧
-      (0 < pitchLength A i t e → (cs.head?.map (·.start)) = some (chunkStart A i)) := by
+      (0 < pitchLength A i t e → (cs.head?.map (·.start)) = some (chunkStart A i)) ∧
+      (cs ≠ [] → size + nodeSize ex * cs.length ≤ nodeSize ex * Tables.mdsdrv_pitch_node_max) := by
   simp only [nodeOf] at h
-  obtain ⟨f1, f2, f3, _⟩ := nodeChunks_frames A ue ex t _ _ i cs (Nat.le_refl _) h
-  refine ⟨f1, f2, f3, nodeChunks_range A ue ex t _ _ i cs h, ?_⟩
+  obtain ⟨f1, f2, f3, _, f5⟩ := nodeChunks_frames A ue ex t _ _ _ i cs (Nat.le_refl _) h
+  refine ⟨f1, f2, f3, nodeChunks_range A ue ex t _ _ _ i cs h, ?_, f5⟩
   intro hp
   obtain ⟨n, hn⟩ : ∃ n, (pitchLength A i t e).toNat = n + 1 := ⟨(pitchLength A i t e).toNat - 1, by omega⟩
   rw [hn] at h
@@ -449,17 +492,31 @@ theorem nodeOf_spec {α} (A : Arith α) (ue ex : Bool) (i t : α) (e : Option In
   simp only [this, if_false] at h
   split at h
   · cases h
-  · simp only [Option.map_eq_some_iff] at h
-    obtain ⟨cs', _, rfl⟩ := h
-    rfl
+  · split at h
+    · cases h
+    · simp only [map_eq_ok] at h
+      obtain ⟨cs', _, rfl⟩ := h
+      rfl
+
+/-- node count form of the size limit: a node added behind `n ≤ 256` nodes leaves at most 256 -/
+theorem nodeOf_count {α} (A : Arith α) (ue ex : Bool) (n : Nat) (i t : α) (e : Option Int) (cs : List RawChunk)
+    (h : nodeOf A ue ex (nodeSize ex * n) i t e = .ok cs) (hn : n ≤ 256) : n + cs.length ≤ 256 := by
+  obtain ⟨_, _, _, _, _, f⟩ := nodeOf_spec A ue ex _ i t e cs h
+  cases cs with
+  | nil => simpa using hn
+  | cons c r =>
+    have := f (by simp)
+    have hp := nodeSize_pos ex
+    rw [← Nat.mul_add] at this
+    exact Nat.le_of_mul_le_mul_left this hp
 
 def ChunkOK (ex : Bool) (c : RawChunk) : Prop := if ex then ER c else CR c
 
-theorem itemChunks_ok {α} (A : Arith α) (ue ex : Bool) (it : PItem α) (cs : List RawChunk)
-    (h : itemChunks A ue ex it = some cs) : ∀ c ∈ cs, ChunkOK ex c := by
-  have key : ∀ i t e cs, nodeOf A ue ex i t e = some cs → ∀ c ∈ cs, ChunkOK ex c := by
-    intro i t e cs h c hc
-    obtain ⟨_, f2, _, f4, _⟩ := nodeOf_spec A ue ex i t e cs h
+theorem itemChunks_ok {α} (A : Arith α) (ue ex : Bool) (n : Nat) (it : PItem α) (cs : List RawChunk)
+    (h : itemChunks A ue ex n it = .ok cs) : (∀ c ∈ cs, ChunkOK ex c) ∧ (n ≤ 256 → n + cs.length ≤ 256) := by
+  have key : ∀ sz i t e cs, nodeOf A ue ex sz i t e = .ok cs → ∀ c ∈ cs, ChunkOK ex c := by
+    intro sz i t e cs h c hc
+    obtain ⟨_, f2, _, f4, _⟩ := nodeOf_spec A ue ex sz i t e cs h
     have a := f2 c hc
     have b := f4 c hc
     unfold ChunkOK
@@ -469,45 +526,54 @@ theorem itemChunks_ok {α} (A : Arith α) (ue ex : Bool) (it : PItem α) (cs : L
       have := b.2.2.2.2 rfl
       simp only [Bool.false_eq_true, if_false, CR]; omega
   cases it with
-  | loop => simp only [itemChunks, Option.some.injEq] at h; subst h; simp
-  | node i t e => exact key i t e cs h
+  | loop => simp only [itemChunks, Except.ok.injEq] at h; subst h; simp
+  | node i t e => exact ⟨key _ i t e cs h, nodeOf_count A ue ex n i t e cs h⟩
   | vib b d r =>
     simp only [itemChunks] at h
-    cases h1 : nodeOf A ue ex (A.fmt6 b) (A.fmt6 d) (some r) with
-    | none => simp [h1] at h
-    | some c1 =>
-      cases h2 : nodeOf A ue ex (A.fmt6 d) (A.fmt6 (A.neg d)) (some (r * 2)) with
-      | none => simp [h1, h2] at h
-      | some c2 =>
-        cases h3 : nodeOf A ue ex (A.fmt6 (A.neg d)) (A.fmt6 b) (some r) with
-        | none => simp [h1, h2, h3] at h
-        | some c3 =>
-          simp only [h1, h2, h3, Option.bind_some, Option.map_some, Option.some.injEq] at h
+    cases h1 : nodeOf A ue ex (nodeSize ex * n) (A.fmt6 b) (A.fmt6 d) (some r) with
+    | error e => simp [h1, Except.bind] at h
+    | ok c1 =>
+      cases h2 : nodeOf A ue ex (nodeSize ex * (n + c1.length)) (A.fmt6 d) (A.fmt6 (A.neg d)) (some (i32 (r * 2))) with
+      | error e => simp [h1, h2, Except.bind] at h
+      | ok c2 =>
+        cases h3 : nodeOf A ue ex (nodeSize ex * (n + c1.length + c2.length)) (A.fmt6 (A.neg d)) (A.fmt6 b) (some r) with
+        | error e => simp [h1, h2, h3, Except.bind, Except.map] at h
+        | ok c3 =>
+          simp only [h1, h2, h3, Except.bind, Except.map, Except.ok.injEq] at h
           subst h
-          intro c hc
-          simp only [List.mem_append] at hc
-          rcases hc with (hc | hc) | hc
-          · exact key _ _ _ _ h1 c hc
-          · exact key _ _ _ _ h2 c hc
-          · exact key _ _ _ _ h3 c hc
+          refine ⟨?_, ?_⟩
+          · intro c hc
+            simp only [List.mem_append] at hc
+            rcases hc with (hc | hc) | hc
+            · exact key _ _ _ _ _ h1 c hc
+            · exact key _ _ _ _ _ h2 c hc
+            · exact key _ _ _ _ _ h3 c hc
+          · intro hn
+            have a1 := nodeOf_count A ue ex _ _ _ _ _ h1 hn
+            have a2 := nodeOf_count A ue ex _ _ _ _ _ h2 a1
+            have a3 := nodeOf_count A ue ex _ _ _ _ _ h3 a2
+            simp only [List.length_append]; omega
 
+/-- every accepted envelope: all iterations in format range, the loop index inside `0..length`,
+and — the limit of `add_pitch_node` — at most 256 nodes -/
 theorem envChunks_ok {α} (A : Arith α) (ue ex : Bool) (items : List (PItem α)) (cs0 : List RawChunk) (lp0 : Int)
-    (cs : List RawChunk) (lp : Int) (h : envChunks A ue ex items cs0 lp0 = some (cs, lp))
+    (cs : List RawChunk) (lp : Int) (h : envChunks A ue ex items cs0 lp0 = .ok (cs, lp))
     (h0 : ∀ c ∈ cs0, ChunkOK ex c) (hl0 : lp0 = -1 ∨ (0 ≤ lp0 ∧ lp0 ≤ cs0.length)) :
-    (∀ c ∈ cs, ChunkOK ex c) ∧ (lp = -1 ∨ (0 ≤ lp ∧ lp ≤ cs.length)) ∧ cs0.length ≤ cs.length := by
+    (∀ c ∈ cs, ChunkOK ex c) ∧ (lp = -1 ∨ (0 ≤ lp ∧ lp ≤ cs.length)) ∧ cs0.length ≤ cs.length ∧
+      (cs0.length ≤ 256 → cs.length ≤ 256) := by
   induction items generalizing cs0 lp0 with
   | nil =>
-    simp only [envChunks, Option.some.injEq, Prod.mk.injEq] at h
+    simp only [envChunks, Except.ok.injEq, Prod.mk.injEq] at h
     obtain ⟨rfl, rfl⟩ := h
-    exact ⟨h0, hl0, Nat.le_refl _⟩
+    exact ⟨h0, hl0, Nat.le_refl _, id⟩
   | cons it r ih =>
     simp only [envChunks] at h
-    cases hc : itemChunks A ue ex it with
-    | none => simp [hc] at h
-    | some c =>
-      simp only [hc, Option.bind_some] at h
-      have hok := itemChunks_ok A ue ex it c hc
-      obtain ⟨a, b, d⟩ := ih (cs0 ++ c) _ h
+    cases hc : itemChunks A ue ex cs0.length it with
+    | error e => simp [hc, Except.bind] at h
+    | ok c =>
+      simp only [hc, Except.bind] at h
+      obtain ⟨hok, hcnt⟩ := itemChunks_ok A ue ex _ it c hc
+      obtain ⟨a, b, d, f⟩ := ih (cs0 ++ c) _ h
         (by intro x hx; rcases List.mem_append.mp hx with hx | hx; exact h0 x hx; exact hok x hx)
         (by
           split
@@ -515,20 +581,42 @@ theorem envChunks_ok {α} (A : Arith α) (ue ex : Bool) (items : List (PItem α)
           · rcases hl0 with hl0 | hl0
             · left; exact hl0
             · right; simp; omega)
-      refine ⟨a, b, ?_⟩
-      simp at d; omega
+      refine ⟨a, b, ?_, ?_⟩
+      · simp at d; omega
+      · intro h256
+        exact f (by simpa using hcnt h256)
 
 
-/-- the extended form never fails -/
-theorem C11_pitch_ext_total {α} (A : Arith α) (target : α) (fuel : Nat) (length : Int) (counter : α) :
-    (nodeChunks A true true target fuel length counter).isSome = true := by
-  induction fuel generalizing length counter with
-  | zero => simp [nodeChunks]
+/-- `add_pitch_node` throws nothing but `invalid_argument` (compact form with extended pitch
+allowed only) and the too-long InputError -/
+theorem nodeChunks_error {α} (A : Arith α) (ue ex : Bool) (target : α) (fuel size : Nat) (length : Int) (counter : α)
+    (e : PErr) (h : nodeChunks A ue ex target fuel size length counter = .error e) :
+    e = .tooLong ∨ (e = .invalidArgument ∧ ue = true ∧ ex = false) := by
+  induction fuel generalizing size length counter with
+  | zero => simp [nodeChunks] at h
   | succ fuel ih =>
-    unfold nodeChunks
+    unfold nodeChunks at h
     by_cases hl : length ≤ 0
-    · simp [hl]
-    · simp only [hl, if_false, Bool.not_true, Bool.false_and, Bool.false_eq_true, if_true]
-      simpa using ih _ _
+    · simp [hl] at h
+    · simp only [hl, if_false] at h
+      split at h
+      · rename_i hc
+        simp only [Except.error.injEq] at h
+        subst h
+        right
+        simp only [Bool.and_eq_true, Bool.not_eq_true'] at hc
+        exact ⟨rfl, hc.1.2, hc.1.1⟩
+      · split at h
+        · simp only [Except.error.injEq] at h
+          exact Or.inl h.symm
+        · rw [map_eq_error] at h
+          exact ih _ _ _ h
+
+/-- the extended form never throws `invalid_argument` -/
+theorem C11_pitch_ext_total {α} (A : Arith α) (ue : Bool) (target : α) (fuel size : Nat) (length : Int) (counter : α)
+    (e : PErr) (h : nodeChunks A ue true target fuel size length counter = .error e) : e = .tooLong := by
+  rcases nodeChunks_error A ue true target fuel size length counter e h with h | ⟨_, _, h⟩
+  · exact h
+  · cases h
 
 end Ctrmml.MdsData
